@@ -442,8 +442,15 @@ def run_gram(case, J):
         res, ex = call(fn)
         if cat == "loss":
             if J.expect_no_raise(ex, "a transient destination error on datagram send"):
-                queued = [bytes(pk.packed) for pk, ha in stack.txPkts]
-                if payloads[pos] not in queued:
+                queued, odd = [], []
+                for item in stack.txPkts:      # entries are (packet, ha); anything else cannot be retried
+                    try:
+                        queued.append(bytes(item[0].packed))
+                    except Exception:   # noqa: BLE001
+                        odd.append(repr(item)[:80])
+                if odd:
+                    J.fail("queue-corrupted", "after the error the retry queue holds entries that are not (packet, ha): %s" % (odd,))
+                elif payloads[pos] not in queued:
                     J.fail("packet-dropped", "the packet that met the error is no longer queued for retry (queued %r)" % (queued,))
                 else:
                     for _ in range(n + 1):
